@@ -138,16 +138,18 @@ def obs_equal(a, b):
 
 def run_task(args):
     """Worker: explore a slice of one (harness, cfg); replay findings; re-validate path models."""
-    prop, hname, cfg, prefixes, budget_paths, budget_s, validate_cap = args
+    prop, hname, cfg, prefixes, budget_paths, budget_s, validate_cap = args[:7]
+    second = args[7] if len(args) > 7 else 0
     from . import sym
 
     out = dict(harness=hname, cfg=cfg, stats={}, left=[], confirmed=[], nonrepro=[], errors=[], witness=[], samples=[],
-               functions=[], validated=0, mismatches=[], npaths_nontrivial=0, unknowns=[])
+               functions=[], validated=0, mismatches=[], npaths_nontrivial=0, unknowns=[], second=0)
     try:
         _, hs = load(prop)
         h = hs[hname]
         known = [k for k in known_findings() if k.get("status") == "known" and k.get("harness") == hname]
         ex = sym.Explorer(timeout_ms=h.timeout_ms, concretize_cap=h.cap, known=known)
+        ex.second_budget = second
         tracer = FnTracer() if not prefixes or prefixes == [[]] else None
         try:
             out["left"] = ex.run(_with_cfg(h.fn), cfg, prefixes, budget_paths, budget_s, tracer)
@@ -156,6 +158,9 @@ def run_task(args):
         except Exception as e:  # noqa: BLE001
             out["errors"].append(f"{type(e).__name__} escaped {hname} {cfg}: {e}\n{traceback.format_exc(limit=12)}")
         out["stats"] = ex.stats.as_dict()
+        out["second"] = ex.second_checked
+        for d in ex.second_disagreements:
+            out["errors"].append("second-solver disagreement: " + d)
         out["unknowns"] = [f"{u} cfg={cfg}" for u in ex.unknowns[:5]]
         out["witness"] = sorted(ex.witness)
         if tracer is not None:
@@ -249,7 +254,7 @@ def main(argv):
     tasks = []
     for name, h in sorted(hs.items()):
         for cfg in (h.quick if tier == "quick" else h.thorough):
-            tasks.append((prop, name, cfg, [[]], slice_paths, slice_s, validate_cap))
+            tasks.append((prop, name, cfg, [[]], slice_paths, slice_s, validate_cap, 3 if tier == "thorough" else 0))
     agg = dict(stats={}, unknowns=[], confirmed=[], nonrepro=[], errors=[], witness={}, samples=[], functions=set(), validated=0, mismatches=[],
                tasks=0, configs=len(tasks), nontrivial=0)
     ctxmp = multiprocessing.get_context("fork")
@@ -280,6 +285,7 @@ def main(argv):
                     agg["samples"].extend(dict(harness=o["harness"], cfg=o["cfg"], path_model=s) for s in o["samples"][:1])
                 agg["functions"].update(tuple(f) for f in o["functions"])
                 agg["validated"] += o["validated"]
+                agg["second"] = agg.get("second", 0) + o.get("second", 0)
                 agg["nontrivial"] += o["npaths_nontrivial"]
                 left = o["left"]
                 # split leftover subtrees into new tasks
@@ -364,7 +370,7 @@ def report(prop, tier, seed, mod, hs, agg, wall, timed_out):
             outside_claim=meta.get("outside", []),
             extra=meta.get("extra", {}),
             stubs=meta.get("stubs", []),
-            solver="z3 " + _z3v(), exhaustive=exhaustive,
+            solver="z3 " + _z3v(), exhaustive=exhaustive, second_solver_checked=agg.get("second", 0),
             known_findings_seen=sorted(known_hits), violations_found=len(vio_paths),
             explanation="bounded symbolic execution of the real psutil code (proxy values, z3 decides every data-dependent branch "
                         "and every obligation); exhaustive=true means every feasible path within the stated bounds was completed "
